@@ -69,6 +69,15 @@ pub fn pool(rng: &mut Rng, n: usize) -> Vec<TV> {
         TV::Str("a".into()),
         TV::Str("ab".into()),
         TV::Str("é".into()),
+        TV::Str("Apple".into()),
+        TV::Str("apple".into()),
+        TV::Str("APPLE".into()),
+        TV::Str("\u{ff5e}".into()),
+        TV::Str("\u{e000}".into()),
+        TV::Str("\u{1f600}".into()),
+        TV::Str("\u{10000}".into()),
+        TV::List(vec![TV::Str("Apple".into()), TV::Num(1.0)]),
+        TV::List(vec![TV::Str("apple".into()), TV::Num(0.0)]),
         TV::List(vec![]),
         TV::List(vec![TV::Num(1.0)]),
         TV::List(vec![TV::Num(1.0), TV::Num(2.0)]),
